@@ -609,7 +609,7 @@ func TestVerif_API(t *testing.T) {
 			n := caseNo
 			caseNo++
 			if n%int64(env.NShards) == int64(env.Shard) {
-				if n%32 == 0 && !env.Deadline.IsZero() && time.Now().After(env.Deadline) {
+				if res.Executions%32 == 0 && !env.Deadline.IsZero() && time.Now().After(env.Deadline) { // every 32 cases this worker ran
 					res.Cap(fmt.Sprintf("deadline reached at case %d", n))
 					stop = true
 					return
